@@ -363,6 +363,7 @@ func c05Scenarios(thorough bool) []c05Scn {
 		{Name: "W|RR", Key: "k", Seeded: true, Threads: [][]c05Op{{w(1)}, {g, g}}},
 		{Name: "W|R nested", Key: "d/k", Seeded: true, Threads: [][]c05Op{{w(1)}, {g}}},
 		{Name: "W|R new-key", Key: "k", Seeded: false, Threads: [][]c05Op{{w(1)}, {g}}},
+		{Name: "W(empty)|RR", Key: "k", Seeded: true, Threads: [][]c05Op{{w(3)}, {g, g}}},
 		{Name: "W|HEAD", Key: "k", Seeded: true, Threads: [][]c05Op{{w(1)}, {{Kind: "head", Inst: 1}}}},
 		{Name: "W|ATTRS", Key: "k", Seeded: true, Threads: [][]c05Op{{w(1)}, {{Kind: "attrs", Inst: 1}}}},
 		{Name: "D|R", Key: "k", Seeded: true, Threads: [][]c05Op{{d}, {gA}}},
@@ -422,7 +423,8 @@ func c05Phase(x *sched.Exec, thread int, tau int, objPath string, nthreadsteps [
 }
 
 func c05RunScenario(r *ck.Run, st *pxStore, scn c05Scn, bound int) {
-	vals := []wval{mkval(0), mkval(1), mkval(2)}
+	// value 3 is the empty object (an upload without data takes short cuts of its own)
+	vals := []wval{mkval(0), mkval(1), mkval(2), {ID: 3, Body: []byte{}, ETag: etagOf(nil), Meta: "m3", CT: "text/w3"}}
 	objPath := filepath.Join(c05Bucket, scn.Key)
 	var recs []*c05Rec
 	var evctr int64
